@@ -306,7 +306,7 @@ func (s *Script) evalWithRoot(stack, data, root any) (any, Expr) {
 				if o, ok := sstack[i-1].(*op); ok && o.getLeft {
 					var x Expr
 					if x, ok = ev.(Expr); ok {
-						ev = x.Get(v)
+						ev = x.nestedRoot(root).Get(v)
 					} else {
 						ev = nil
 					}
@@ -350,7 +350,7 @@ func (s *Script) evalWithRoot(stack, data, root any) (any, Expr) {
 						sstack[i] = Nothing
 					}
 				} else {
-					values := x.Get(dv)
+					values := x.nestedRoot(root).Get(dv)
 					switch len(values) {
 					case 0:
 						sstack[i] = Nothing
